@@ -304,6 +304,11 @@ func RunMain(id, tier string, only int, seedOverride *int64) int {
 
 	distinct := len(total.Signatures)
 	exit := 0
+	keyHist := map[string]int{}
+	for _, v := range total.Violations {
+		keyHist[v.Key]++
+	}
+	total.KeyHist = keyHist
 	// write replays for fresh violations (dedupe by key, keep first 5 keys)
 	seenKey := map[string]bool{}
 	nrep := 0
